@@ -77,11 +77,13 @@ func genC19(g *Gen) {
 		"int":    {mk("int", 1, "", ""), mk("int", -5, "", ""), mk("int", 0, "", ""), mk("int", 1 << 40, "", "")},
 		"float": {mk("float", 0, "1.5", ""), mk("float", 0, "-0", ""), mk("float", 0, "NaN", ""), mk("float", 0, "+Inf", ""), null, null,
 			mk("float", 0, "1.005", ""), mk("float", 0, "2.675", ""), mk("float", 0, "0.125", ""), mk("float", 0, "1234.5678", ""), mk("float", 0, "-0.004", ""),
+			mk("float", 0, "-0.25", ""), mk("float", 0, "-0.125", ""), mk("float", 0, "-3.375", ""), mk("float", 0, "2.5", ""), mk("float", 0, "-2.5", ""), mk("float", 0, "0.75", ""),
 			mk("float", 0, "1e18", ""), mk("float", 0, "-1e300", ""), mk("float", 0, "5e-324", ""), mk("float", 0, "123456789.987654321", "")},
 		"bool":   {{T: "bool", B: true}, {T: "bool", B: false}},
 		"string": {mk("string", 0, "", "a"), mk("string", 0, "", ""), mk("bytes", 0, "", "raw\xff"), mk("string", 0, "", "1.25"), null, null},
 		"numstr": {mk("string", 0, "", "1.25"), mk("string", 0, "", "-3"), mk("string", 0, "", "1e3"), mk("string", 0, "", "NaN"),
-			mk("string", 0, "", "2.675"), mk("string", 0, "", "0.125"), mk("string", 0, "", "1234.56789"), mk("string", 0, "", "-0.0049"), mk("string", 0, "", "1e19"), mk("string", 0, "", "-Inf")},
+			mk("string", 0, "", "2.675"), mk("string", 0, "", "0.125"), mk("string", 0, "", "1234.56789"), mk("string", 0, "", "-0.0049"), mk("string", 0, "", "1e19"), mk("string", 0, "", "-Inf"),
+			mk("string", 0, "", "-0.25"), mk("string", 0, "", "-0.125"), mk("string", 0, "", "-2.5"), mk("string", 0, "", "0.375")},
 		"mixed":  {mk("int", 1, "", ""), mk("float", 0, "2.5", ""), mk("string", 0, "", "x"), null},
 		"nulls":  {null},
 	}
@@ -216,10 +218,13 @@ func genC15(g *Gen) {
 					ks = append(ks, b)
 				}
 			}
-			for _, k := range ks {
+			// one frame per 40 fault positions (the frame is rebuilt per scenario; each write is independent)
+			for i := 0; i < len(ks); i += 40 {
 				g.begin("write fault")
 				ff := g.do(g.cur0(f))
-				g.do(Step{Op: op, Recv: ff, Fault: &FaultPos{Kind: "write", At: k}})
+				for _, k := range ks[i:minI(i+40, len(ks))] {
+					g.do(Step{Op: op, Recv: ff, Fault: &FaultPos{Kind: "write", At: k}})
+				}
 				g.end()
 			}
 		}
